@@ -1,0 +1,15 @@
+//go:build verif
+
+package verifhook
+
+import (
+	"unsafe"
+
+	"github.com/basecomplextech/spec/internal/vpool"
+)
+
+// SetPoolTracer installs the receiver of pool events (acquisitions are reported after the object was taken
+// from its pool, releases after the reset and before the object goes back).
+func SetPoolTracer(f func(kind string, obj unsafe.Pointer, put bool, mask int64)) {
+	vpool.Set(f)
+}
